@@ -77,6 +77,7 @@ def tla_constants(A, max_len, fixes):
       Matches="[p \\in Regexes \\X Scopes |-> p \\in %s]" % tlc.tla_set(["<<%s, %s>>" % (q(r), q(s)) for (r, s), v in sorted(matches.items()) if v]),
       Supported="[p \\in CfgAlgs \\X QueryOps |-> p \\in %s]" % tlc.tla_set(["<<%s, %s>>" % (ca(c), q(o)) for (c, o), v in sorted(supported.items()) if v]),
       HasWeightCfg="[c \\in %s |-> c \\in %s]" % (tlc.tla_str_set(sorted(A["cfgs"])), tlc.tla_str_set(sorted(c for c, v in hasw.items() if v))),
+      ScopePairs=tlc.tla_set(["<<%s, %s>>" % (q(a), q(b)) for a, b in A.get("scope_pairs", [])]),
       MaxLen=str(max_len), Fixes=tlc.tla_str_set(fixes))
   return consts, dict(matches=matches, supported=supported)
 
